@@ -1,5 +1,5 @@
 (* C09 correspondence: compare the model's outputs with those observed on the real class. *)
-Require Export QV.Lib.Corr QV.C09.Model.
+Require Export QV.Lib.Corr QV.C09.Model QV.C09.Blocking.
 
 Definition out_eqb (a b : out) : bool :=
   match a, b with
@@ -19,3 +19,32 @@ Definition model_out (c : case) : list out :=
 
 Definition check_case (c : case) : bool :=
   let '(_, _, _, obs) := c in list_eqb out_eqb (model_out c) obs.
+
+(* ---- trace acceptance for the blocking multi-reader scenarios: the labels recorded from the real
+   class (every len / append / popleft of the receiver's deque, which all happen under its condition
+   variable) must be a run of Blocking.bstep, and every reader must end with what the model gives it ---- *)
+Definition rstat_eqb (a b : rstat) : bool :=
+  match a, b with
+  | RIdle, RIdle | RWaiting, RWaiting | RTimedOut, RTimedOut => true
+  | RGot p n, RGot p' n' => Z.eqb p p' && N.eqb n n'
+  | _, _ => false
+  end.
+
+(* capacity, policy, labels, (reader, final status) observed *)
+Definition tcase := (nat * policy * list blabel * list (nat * rstat))%type.
+
+Definition check_trace (c : tcase) : bool :=
+  let '(cp, pl, ls, fin) := c in
+  match brun (binit cp pl) ls with
+  | None => false
+  | Some s => forallb (fun e => rstat_eqb (rd s (fst e)) (snd e)) fin
+  end.
+
+(* diagnosis: index of the first label the model does not accept *)
+Fixpoint first_refused (s : bst) (ls : list blabel) (i : nat) : option nat :=
+  match ls with
+  | [] => None
+  | l :: r => match bstep s l with Some s1 => first_refused s1 r (S i) | None => Some i end
+  end.
+Definition trace_diag (c : tcase) : option nat :=
+  let '(cp, pl, ls, _) := c in first_refused (binit cp pl) ls 0.
